@@ -71,13 +71,32 @@ def gen_stream(rng, rfc, ctl, first_id, profile, ncomp=None, npairs=None):
                     p["nom"] = 0
     comps = []
     for c in range(1, ncomp + 1):
-        vn = [p["prio"] for p in pairs if p["comp"] == c and p["valid"] and p["nom"]]
-        if vn:
-            sel = max(vn) if rng.random() < 0.7 else max(vn) + rng.choice([1, 5, 1000])
+        # the selected pair: none (local == NULL, priority 0 - also while valid nominated pairs are left, after the socket of the
+        # selected pair was removed), the best valid nominated pair, or a pair that is no longer on the list
+        vn = [p for p in pairs if p["comp"] == c and p["valid"] and p["nom"]]
+        r = rng.random()
+        if vn and r < 0.55:
+            bp = max(vn, key=lambda p: p["prio"]); sel, sl, sr = bp["prio"], bp["loc"], bp["rem"]
+        elif vn and r < 0.7:
+            sel, sl, sr = max(p["prio"] for p in vn) + rng.choice([1, 5, 1000]), 70 + rng.randrange(3), 70 + rng.randrange(3)
+        elif not vn and r < 0.3:
+            sel, sl, sr = rng.choice(prios + [7]), 70 + rng.randrange(3), 70 + rng.randrange(3)
         else:
-            sel = 0 if rng.random() < 0.7 else rng.choice(prios + [7])
-        comps.append(dict(state=rng.choice([0, 1, 2, 2, 3, 3, 4, 4, 5]), sel=sel, remote=int(rng.random() < 0.85)))
+            sel, sl, sr = 0, 0, 0
+        comps.append(dict(state=rng.choice([0, 1, 2, 2, 3, 3, 4, 4, 5]), sel=sel, selloc=sl, selrem=sr, remote=int(rng.random() < 0.85)))
     return dict(creds=int(rng.random() < 0.85), comps=comps, pairs=pairs)
+
+
+def selected_after(s, cid, rfc, t):
+    """selected priority the pruning of priv_mark_pair_nominated's body works with (t = the pair it nominates)"""
+    c = s["comps"][cid - 1]; sel, has = c["sel"], bool(c["selloc"])
+    if t["valid"] and t["prio"] > sel:
+        sel, has = t["prio"], True
+    if not has:           # e3eeaf1: the first valid nominated pair takes over
+        for q in s["pairs"]:
+            if q["comp"] == cid and q["valid"] and (q["nom"] or q is t):
+                sel = max(sel, q["prio"]); break
+    return sel
 
 
 def removable(p, cid, sel):
@@ -136,11 +155,14 @@ def gen_case(rng, i, op):
         c = s["comps"][cid - 1]
         if op == "pr":
             if rng.random() < 0.3 and s["pairs"]:
-                c["sel"] = rng.choice(s["pairs"])["prio"] + rng.choice([-1, 0, 0, 1])     # any positive value is fine for the function itself
-            c["sel"] = max(c["sel"], 1)                                                  # g_assert (priority > 0)
+                c["sel"] = max(rng.choice(s["pairs"])["prio"] + rng.choice([-1, 0, 0, 1]), 1)     # any positive value is fine for the function itself
+                c["selloc"] = c["selloc"] or 71; c["selrem"] = c["selrem"] or 71
+            if c["sel"] == 0 and rng.random() < 0.85:
+                c["sel"], c["selloc"], c["selrem"] = rng.choice([1, 40, 1 << 33]), 72, 72
+            if c["sel"] == 0:
+                case["kind"] = "pr:assert"                                                        # g_assert (priority > 0): both sides must fault
         elif any(p["comp"] == cid and p["valid"] and p["nom"] for p in s["pairs"]):
-            c["sel"] = max(c["sel"], 1)
-            case["kind"] = "fr:nominated"
+            case["kind"] = "fr:nominated" + (":no-selected-pair" if not c["selloc"] else "")
         else:
             case["kind"] = "fr:none-nominated"
     elif op == "mn":
@@ -163,16 +185,13 @@ def gen_case(rng, i, op):
         # generated (CheckListProofs.mark_nominated_memory_safe / mark_nominated_cursor_freed; none was found reachable)
         if not (rfc and ctl):
             byid = {p["id"]: p for p in s["pairs"]}
-            sel = s["comps"][cid - 1]["sel"]
             for p in mine:
                 if (p["loc"], p["rem"]) != (case["args"][2], case["args"][3]):
                     continue
                 t = byid.get(p["disc"], None) if (p["st"] == "S" and p["disc"]) else p
                 if t is None:
                     continue
-                if t["valid"]:
-                    sel = max(sel, t["prio"])
-                if (t["nom"] or t["valid"] or not rfc) and removable(p, cid, max(sel, 1)):
+                if (t["nom"] or t["valid"] or not rfc) and removable(p, cid, max(selected_after(s, cid, rfc, t), 1)):
                     # make the cursor pair one the pruning keeps
                     if p["st"] == "D" or p["disc"]:
                         p["trig"] = 0
@@ -188,7 +207,7 @@ def line_of(c):
     for s in c["streams"]:
         t += ["S", str(s["creds"]), str(len(s["comps"]))]
         for k in s["comps"]:
-            t += ["C", str(k["state"]), str(k["sel"]), str(k["remote"])]
+            t += ["C", str(k["state"]), str(k["sel"]), str(k["selloc"]), str(k["selrem"]), str(k["remote"])]
         t.append(str(len(s["pairs"])))
         for p in s["pairs"]:
             t += ["P"] + [str(p[f]) for f in ("id", "comp", "lf", "rf", "loc", "rem", "prio", "st") + FLAGS + ("disc",)]
@@ -208,7 +227,8 @@ def coq_pair(p):
 
 def coq_stream(s):
     return "(mkStream [%s] [%s] %s)" % ("; ".join(coq_pair(p) for p in s["pairs"]),
-                                        "; ".join("(mkComp %d %d %d %s)" % (i + 1, k["state"], k["sel"], b(k["remote"])) for i, k in enumerate(s["comps"])), b(s["creds"]))
+                                        "; ".join("(mkComp %d %d %d %d %d %s)" % (i + 1, k["state"], k["sel"], (i + 1) * 1000 + k["selloc"] if k["selloc"] else 0,
+                                                                                     (i + 1) * 1000 + k["selrem"] if k["selrem"] else 0, b(k["remote"])) for i, k in enumerate(s["comps"])), b(s["creds"]))
 
 
 def coq_op(c):
@@ -238,7 +258,7 @@ def parse_out(c, toks):
             pairs.append(p)
         comps = []
         for k, x in zip(s["comps"], [y for y in cl.strip().split(",") if y]):
-            st, sel = x.split(":"); comps.append(dict(state=int(st), sel=int(sel), remote=k["remote"]))
+            st, sel, sl, sr = x.split(":"); comps.append(dict(state=int(st), sel=int(sel), selloc=int(sl), selrem=int(sr), remote=k["remote"]))
         streams.append(dict(creds=s["creds"], comps=comps, pairs=pairs))
     sigs = [tuple(int(v) for v in x.split(".")) for x in sig.strip().split(",") if x and x != "-"]
     return ret, streams, sigs
@@ -290,7 +310,7 @@ def checklist_tie(chk):
     results = [parse_out(c, o_) for c, o_ in zip(cases, outs)]
     for c, r in zip(cases, results):
         chk.count_case(line_of(c).split(" ", 1)[1], True, "checklist:" + c["kind"])
-        if r is None:
+        if r is None and c["kind"] != "pr:assert":
             chk.violation({"kind": "checklist", "case": line_of(c)}, "a g_assert of agent/conncheck.c failed on a check list the code can reach: %s" % line_of(c))
     shards = [(cases[i:i + SHARD], results[i:i + SHARD]) for i in range(0, len(cases), SHARD)]
     with concurrent.futures.ThreadPoolExecutor(max_workers=8) as ex:
